@@ -186,7 +186,7 @@ def _gen_wrapper(prop, job):
     src = '''import sys
 sys.path.insert(0, %(root)r)
 import vf.rt as _rt
-from props.%(prop)s import %(fn)s as _h
+from %(mod)s import %(fn)s as _h
 
 
 def main(%(sig)s) -> bool:
@@ -205,7 +205,7 @@ def twin(%(sig)s) -> bool:
     """
     %(call)s
     return False
-''' % dict(root=ROOT, prop=prop, fn=ob.fn.__name__, sig=sig, doc=doc, call=call)
+''' % dict(root=ROOT, mod=ob.fn.__module__, fn=ob.fn.__name__, sig=sig, doc=doc, call=call)
     d = os.path.join(GEN, prop)
     os.makedirs(d, exist_ok=True)
     path = os.path.join(d, job.slug + '.py')
@@ -376,7 +376,7 @@ os.environ['VF_REPLAY'] = '1'
 sys.path.insert(0, %(root)r)
 sys.path.insert(0, os.environ.get('VF_REPO') or '/repo')
 KW = %(kw)r
-from props.%(prop)s import %(fn)s as h
+from %(mod)s import %(fn)s as h
 from vf.rt import AssumptionFailed
 try:
     r = h(**KW)
@@ -398,7 +398,7 @@ def write_replay(prop, job, kw):
     h = hashlib.sha1(repr(sorted(full.items())).encode()).hexdigest()[:8]
     path = os.path.join(REPLAYS, '%s_%s_%s.py' % (prop, job.slug[:60], h))
     with open(path, 'w') as f:
-        f.write(REPLAY_TMPL % dict(prop=prop, job=job.id, root=ROOT, kw=full,
+        f.write(REPLAY_TMPL % dict(prop=prop, job=job.id, root=ROOT, kw=full, mod=job.ob.fn.__module__,
                                    fn=job.ob.fn.__name__))
     return path, full
 
